@@ -5,7 +5,7 @@ CONSTANTS
   GCMin = 3
   JStar = 1
   MaxBlocks = 6
-  MaxSteps = 9
+  MaxSteps = 8
   MaxClears = 1
   MaxGCs = 2
   ExportHist = FALSE
